@@ -145,21 +145,25 @@ def worker(job):
     return res
 
 
-def nested_instance(rng):
+def nested_instance(rng, triples=False):
     """Three-level region graphs with a large total: A, AB, ABC or ABC, ABD, ACD."""
     inst = E.gen_instance(rng, nattr=4, max_meas=0, zeros_prob=0.0, allow_empty=True, sizes=[2, 2, 3, 2])
     inst["x"] = [25.0 * v + 5 for v in inst["x"]]
     a = inst["order"]
     groups = rng.choice([[(a[0],), (a[0], a[1]), (a[0], a[1], a[2])], [(a[0], a[1], a[2]), (a[0], a[1], a[3]), (a[0], a[2], a[3])],
                          [(a[0], a[1], a[2]), (a[1], a[2], a[3]), (a[2], a[3], a[0])]])
-    if rng.random() < 0.5:
+    if triples or rng.random() < 0.5:
         # a region with one parent that is itself an intersection and one that is a measured clique (five attributes)
         inst = E.gen_instance(rng, nattr=5, max_meas=0, zeros_prob=0.0, allow_empty=True, sizes=[2, 2, 2, 2, 2])
         inst["x"] = [30.0 * v + 5 for v in inst["x"]]
         a = inst["order"]
-        groups = rng.choice([[(a[0], a[1], a[2]), (a[0], a[1], a[3]), (a[1], a[4])],
+        groups = rng.choice([[(a[0], a[1], a[2]), (a[0], a[1], a[3]), (a[1], a[2], a[4])],
+                             [(a[0], a[1], a[2]), (a[1], a[2], a[3]), (a[1], a[4])],
+                             [(a[0], a[1], a[2]), (a[0], a[1], a[3]), (a[1], a[4])],
                              [(a[0], a[1], a[2]), (a[1], a[2], a[3]), (a[2], a[4]), (a[0], a[4])],
                              [(a[2], a[0], a[1]), (a[3], a[1], a[0]), (a[4], a[0])]])
+        if triples:
+            groups = [(a[0], a[1], a[2]), (a[0], a[1], a[3]), (a[1], a[2], a[4])]      # an intersection of intersections loses a parent
     for g in groups:
         noise = rng.choice([1.0, 5.0])
         Q = E.qmat("identity", math.prod(inst["sz"][x] for x in g))
@@ -232,7 +236,9 @@ def run(ctx, canary=False):
             iters = 1500 if not thorough else 3000
             second = rng.random() < 0.5
         elif k % 8 == 0:
-            inst, mode, oracle, iters = nested_instance(rng), "given", "convex", 200
+            # three-level region graphs: mostly the convex oracle (agreement clause), every third time one of the others
+            other = (k // 8) % 3 == 0
+            inst, mode, oracle, iters = nested_instance(rng, triples=other), "given", ("convex" if not other else ["approx", "pairwise"][(k // 24) % 2]), 200
         elif k % 8 == 1:
             inst, mode, iters = nested_accurate_instance(rng), "given", 200
         else:
